@@ -22,7 +22,7 @@ import (
 )
 
 // spinLimit: see observer.stuck.
-const spinLimit = 20000
+const spinLimit = 2000
 
 // noAbort disables the short cut for a sender that stopped making progress.
 var noAbort = os.Getenv("VERIF_C09_NOABORT") == "1"
